@@ -66,6 +66,8 @@ RULE = ("multi-track pieces (1-3 tracks, 1-5 bars, 9 signatures with boundary-al
         "zero-length notes (anywhere / on bar lines), two key signatures or two time signatures (different / identical) on one tick, a second key change "
         "before the next bar line, signature events on channels 0-2, key signatures and (repeating / conflicting) time signatures on side tracks, inputs in "
         "seven wrapper states built from plain data incl. an absolute view with the meta events of one tick in another order (add_absolute_message); "
+        "since the post-merge soak also: pieces of 1-6 short bars (1/16 .. 3/8, bars shorter than the 24-tick standard length) with zero-length notes on / off "
+        "bar lines, zero-duration and empty tracks, tracks ending before / on / after the last bar line; "
         "non-trivial = a signature change or a note crossing a bar line or tracks of unequal length")
 ASSUMPTIONS = ["model: SCoda.splitBars (Model/Bar.lean), tied by translation (StaticTie, for AbsCoherent meta sequences) and sampled by correspondence from relative "
                "views and from wrapper states whose supplied absolute view holds the meta events in the model's order",
@@ -337,6 +339,10 @@ D18B_EXAMPLE = {"requant": False, "tracks": [[G.pm(WAIT, 0, 96), G.pm(ON, 0, Non
 D26_EXAMPLE = {"requant": True, "tracks": [[G.pm(ON, 0, None, note=60, vel=64), G.pm(WAIT, 0, 10), G.pm(OFF, 0, None, note=60), G.pm(WAIT, 0, 86)]]}
 # D34 (audit K1a): a zero-length note 22 ticks before the bar line, re-quantisation on
 D34_EXAMPLE = {"requant": True, "tracks": [[G.pm(WAIT, 0, 74), G.pm(ON, 0, None, note=60, vel=64), G.pm(OFF, 0, None, note=60)]]}
+# D38 (soak after the merge): a zero-length note on the bar line at tick 36 (3/8 bars); its remainder is re-struck at 72 and is still open in the
+# last bar, a 1/8 bar of 12 ticks: 0 + 24 > 12
+D38_EXAMPLE = {"requant": True, "tracks": [[G.pm(TIMESIG, 0, None, num=3, den=8), G.pm(WAIT, 0, 36), G.pm(ON, 0, None, note=62, vel=33), G.pm(OFF, 0, None, note=62),
+                                            G.pm(WAIT, 0, 36), G.pm(TIMESIG, 0, None, num=1, den=8), G.pm(WAIT, 0, 12)]]}
 # D35 (audit K1b): two different time signatures on one tick
 D35_EXAMPLE = {"requant": False, "tracks": [[G.pm(TIMESIG, 0, None, num=3, den=4), G.pm(TIMESIG, 0, None, num=4, den=4), G.pm(WAIT, 0, 200)]]}
 D35_EXAMPLE2 = {"requant": False, "tracks": [[G.pm(TIMESIG, 0, None, num=4, den=4), G.pm(TIMESIG, 0, None, num=4, den=4), G.pm(WAIT, 0, 96),
@@ -356,7 +362,7 @@ def setup(ctx):
     with open(_os.path.join(_os.path.dirname(_os.path.dirname(_os.path.dirname(_os.path.abspath(__file__)))), "known_findings.json")) as _f:
         _kf = {x["id"]: x for x in _json.load(_f)["findings"]}
     _allowed = set(_kf["D26"]["default_note_values"])
-    _std = _kf.get("D34", {}).get("standard_length", 24)
+    _std = _kf["D34"]["standard_length"]
 
     def kf_d18b(f):
         # the damaged (channel, pitch) is the key of a zero-length note of THAT track on a bar start after tick 0 (audit K5)
@@ -397,27 +403,31 @@ def setup(ctx):
         return [tuple(x) for x in d["back"]] == ([] if best is None else [(on, on + best)])
     ctx.kf_predicates["D26"] = kf_d26
 
-    def kf_d34(f):
-        # re-quantisation on, `BarException: Bar capacity exceeded`, and some track holds a zero-length note less than the standard length
-        # (stored: 24) before the end of its bar: the orphaned note-on is closed `standard_length` later, past the bar line
+    def _overflow_origins(f):
+        # re-quantisation on and exactly `BarException: Bar capacity exceeded`: the origins (torn / sorted / other) of the orphaned note-ons that
+        # the harness-side model of the splitter (h2bars_util.classify_overflows; standard length and note values stored with the findings) sees
+        # overrunning their bars — on the grid the splitter walks: its signature queue holds the meta events in the order of the absolute view it
+        # reads (sorted by (tick, channel) when that view is rebuilt from a fresh relative view, else as handed over)
         d = U.data_of(f)
         if f["clause"] != "raises" or not f["input"]["requant"] or d.get("exc") != "BarException" or d.get("msg") != "Bar capacity exceeded":
-            return False
+            return set()
         tracks, meta, (ts, _) = _meta_given(f)
-        total = max([rel_timed(t)[1] for t in tracks] + [0])
-        # bar ends of the text's grid and — when a signature queue is behind (D23) — of the grid the splitter really walks
-        grids = [[s + L for (s, L, _, _) in U.text_walk(ts, [], 400) if s <= total]]
-        lag = U.lag_walk(ts, [], 400)
-        if any(x[4] for x in lag if x[0] <= total):
-            grids.append([x[0] + x[1] for x in lag if x[0] <= total])
-        for t in tracks:
-            for (c, p, tick, _) in U.zero_length_keys(t):
-                for ends in grids:
-                    e = next((x for x in ends if x > tick), None)
-                    if e is not None and tick + _std > e:
-                        return True
-        return False
+        st = (f["input"].get("states") or ["rel"] * len(tracks))[meta]
+        if st in ("rel", "stale-abs", "churned"):
+            ts = sorted(ts, key=lambda x: (x[0], -1 if x[2] is None else x[2]))
+        return {o[0] for o in U.classify_overflows(tracks, ts, _std, _allowed)}
+
+    def kf_d34(f):
+        # some bar piece holds a zero-length note whose note-off the sort put before its note-on, and the orphaned note-on, closed
+        # `standard_length` (stored: 24) later, overruns the bar (predicted by the model, not only by the input's shape)
+        return "sorted" in _overflow_origins(f)
     ctx.kf_predicates["D34"] = kf_d34
+
+    def kf_d38(f):
+        # the never-ending remainder of a zero-length note torn on a bar line (D18b) is still open in a later bar piece of its track (the track
+        # ends there, or the piece is the tear's own bar) and, closed `standard_length` later, overruns that bar
+        return "torn" in _overflow_origins(f)
+    ctx.kf_predicates["D38"] = kf_d38
 
     def kf_d35(f):
         # a BarException about time signatures, and it is exactly the one that D23's one-change-per-bar queue leads to on this input (two
@@ -507,13 +517,111 @@ def shuffle_same_tick(rng, a):
     return out
 
 
+SHORT_SIGS = [(1, 8), (2, 8), (3, 8), (1, 8), (3, 16), (1, 16), (1, 4), (4, 4), (3, 4), (5, 8), (2, 4)]
+
+
+def gen_short_bar_case(rng, ctx):
+    """the class of D38 (soak after the merge of audit round 3): bars shorter than the 24-tick standard length (1/8, 3/16, 1/16; also 2/8, 3/8)
+    x zero-length notes on and off bar lines x tracks of zero duration (only a zero-length note, or empty) x tracks ending on / before / after
+    the last bar line x meta index x re-quantisation"""
+    nb = rng.randint(1, 6)
+    t, cur, bars = 0, rng.choice(SHORT_SIGS), []
+    ev = [(0, cur)] if rng.random() < 0.8 else []
+    if not ev:
+        cur = (4, 4)
+    for b in range(nb):
+        if b and rng.random() < 0.4:
+            cur = rng.choice(SHORT_SIGS)
+            ev.append((t, cur))
+        bars.append(t)
+        t += 96 * cur[0] // cur[1]
+    total, starts = t, bars + [t]
+    tracks = []
+    for i in range(rng.choice([1, 2, 2, 3])):
+        r = rng.random()
+        if i > 0 and r < 0.2:
+            tracks.append([])
+            ctx.count("short-bars:empty-track")
+            continue
+        if i > 0 and r < 0.4:
+            tracks.append([G.pm(ON, 0, None, note=58, vel=127), G.pm(OFF, 0, None, note=58)])
+            ctx.count("short-bars:zero-duration-track-with-zero-length-note")
+            continue
+        end = rng.choice([total, total, max(1, total - rng.randint(0, 30)), total + rng.randint(0, 20)])
+        notes = []
+        for _ in range(rng.randint(0, 4)):
+            p, on, dur = rng.choice([56, 58, 60, 62]), rng.randint(0, max(0, end - 1)), rng.choice([1, 2, 6, 10, 12, 24, 30, 48, 5])
+            if any(x[1] == p and not (on + dur <= x[2] or x[2] + x[3] <= on) for x in notes):
+                continue
+            notes.append((0, p, on, dur, rng.choice([1, 64, 127])))
+        rel = G.abs_to_rel(G.notes_to_abs(notes, [], cap=(end if rng.random() < 0.5 else None)))
+        if rng.random() < 0.75:
+            rel = U.inject_zero_notes(rng, rel, ticks=(starts if rng.random() < 0.6 else None), pitches=(56, 58, 60, 62), n=rng.choice([1, 1, 2]))
+        tracks.append(rel)
+    for (tick, sig) in ev:
+        tracks[0] = U.insert_at_tick(tracks[0], tick, [G.pm(TIMESIG, 0, None, num=sig[0], den=sig[1])], before=True)
+    meta = 0
+    if len(tracks) > 1 and rng.random() < 0.5:
+        meta = rng.randrange(1, len(tracks))
+        tracks[0], tracks[meta] = tracks[meta], tracks[0]
+    inp = {"tracks": tracks, "requant": rng.random() < 0.75}
+    if meta:
+        inp["meta"] = meta
+    if any(96 * n // d < 24 for _, (n, d) in ev):
+        ctx.count("short-bars:a-bar-shorter-than-24-ticks")
+    if any(z[2] in starts and z[2] > 0 for tr in tracks for z in U.zero_length_keys(tr)):
+        ctx.count("short-bars:zero-length-note-on-a-bar-line")
+    return inp
+
+
 def generate(ctx):
     rng = ctx.rng
-    for ex in (D18B_EXAMPLE, D18C_EXAMPLE, D23_EXAMPLE, D23_EXAMPLE2, D26_EXAMPLE, D34_EXAMPLE, D35_EXAMPLE, D35_EXAMPLE2, D36_EXAMPLE, R6_INSORT_EXAMPLE):
+    for ex in (D18B_EXAMPLE, D18C_EXAMPLE, D23_EXAMPLE, D23_EXAMPLE2, D26_EXAMPLE, D34_EXAMPLE, D38_EXAMPLE, D35_EXAMPLE, D35_EXAMPLE2, D36_EXAMPLE, R6_INSORT_EXAMPLE):
         ctx.check("split_bars", ex)      # the recorded instances of the known findings
     # the same content as D36_EXAMPLE / R6_INSORT_EXAMPLE in every wrapper state: what the bars carry depends on the state (audit R6)
     for st in U.STATES:
         ctx.check("split_bars", {"requant": False, "tracks": [_R6_REL], "states": [st]})
+    for i in range(ctx.n(150, 2000)):
+        inp = gen_short_bar_case(rng, ctx)
+        ctx.count("short-bars")
+        ctx.case((inp["tracks"], inp["requant"], inp.get("meta", 0)), True)
+        ctx.check("split_bars", inp)
+        if i % 3 == 0:
+            ctx.check("split_bars", dict(inp, states=[rng.choice(U.STATES + ["insort"]) for _ in inp["tracks"]]))
+        ctx.corr("splitBars", P.op_splitBars(inp.get("meta", 0), inp["requant"], inp["tracks"]))
+    # signature changes between signatures of EQUAL bar length (3/4 <-> 6/8, 4/4 <-> 2/2, 2/4 <-> 4/8) while side tracks have already ended or
+    # are empty: the bars of an ended track must carry the signature in force too (seeded change C09_agent7: rest bars cached by length and key)
+    same_len = [[(3, 4), (6, 8)], [(4, 4), (2, 2), (8, 8)], [(2, 4), (4, 8)], [(6, 4), (12, 8)]]
+    for i in range(ctx.n(60, 600)):
+        fam = rng.choice(same_len)
+        n_bars = rng.randint(3, 6)
+        sigs, cur = [], None
+        for b in range(n_bars):
+            nxt = rng.choice([x for x in fam if x != cur]) if (cur is None or rng.random() < 0.6) else cur
+            sigs.append(nxt)
+            cur = nxt
+        length = 96 * sigs[0][0] // sigs[0][1]
+        meta_abs, t = [], 0
+        for b, (n_, d_) in enumerate(sigs):
+            if b == 0 or sigs[b - 1] != (n_, d_):
+                meta_abs.append(G.pm(TIMESIG, 0, t, num=n_, den=d_))
+            if rng.random() < 0.3:
+                meta_abs.append(G.pm(KEYSIG, 0, t, key=rng.randrange(15)))
+            if b == n_bars - 1 or rng.random() < 0.6:          # the meta track sounds to the end, so it is the longest
+                meta_abs += [G.pm(ON, 0, t + 12, note=60 + b, vel=64), G.pm(OFF, 0, t + 24, note=60 + b)]
+            t += length
+        meta_abs.append(G.pm(INTERNAL, 0, t))
+        side = rng.choice(["empty", "one-bar", "half"])
+        side_abs = [] if side == "empty" else \
+            [G.pm(ON, 0, 6, note=72, vel=80), G.pm(OFF, 0, 18, note=72)] + ([G.pm(INTERNAL, 0, length * (n_bars // 2))] if side == "half" else [])
+        tracks = [G.abs_to_rel(sorted(meta_abs, key=lambda m: m[TIME])), G.abs_to_rel(side_abs)]
+        if rng.random() < 0.4:
+            tracks.append([])
+        requant = rng.random() < 0.5
+        ctx.count("same-length-signature-changes:side-" + side)
+        ctx.case((tracks, requant, 0), True)
+        ctx.check("split_bars", {"tracks": tracks, "requant": requant})
+        ctx.corr("splitBars", P.op_splitBars(0, requant, tracks))
     for i in range(ctx.n(400, 4000)):
         piece = G.gen_piece(rng, key_changes=True, unequal=rng.random() < 0.5, tail_ok=True, values=[6, 12, 24, 36, 48, 96, 5])
         tracks = [list(t) for t in piece["tracks"]]
